@@ -174,7 +174,7 @@ META = {
     technique="differential runtime monitor: the library's parser / iterators / extraction against an independent reference walker and decoders, on wire captures of the real encoders (master requests, outstation responses) and on generated and mutated fragments",
     text=("A1/A2: every fragment captured from the real master and the real outstation in generated sessions must be accepted by the library's parser and agree with the reference walker: control bits, function, IIN, raw object span, number of headers, group/variation/qualifier, range or count, number of objects and their indices when iterated, and (responses) every measurement value/flags/time delivered by extraction equal to the reference decode; READ requests carry exactly the headers asked for. "
           "P and mutations: whenever the parser accepts a generated, truncated, extended or mutated fragment, the bytes present must be exactly what its headers imply according to the hand-written size table (a truncation or invalid range that is accepted is a violation) and iteration must yield the declared objects."),
-    note="Only the direction 'accepted => exactly as implied' is judged on hostile input; where the library is stricter or more lenient than the reference on qualifier/object combinations this is counted, not flagged. Free-format (g70) inner structure and attribute values are compared at header level only.",
+    note="Only the direction 'accepted => exactly as implied' is judged on hostile input; where the library is stricter or more lenient than the reference on qualifier/object combinations this is counted, not flagged. Free-format (g70) inner structure is compared at header level only (plus the exact length of file descriptors); device attributes are checked end to end in part A3.",
  ),
  "C02": dict(
     engine="vh",
